@@ -728,6 +728,19 @@ class Check:
                 obligations.append({"theorem": t, "file": pf + ".v", "discharged": bool(okk), "axioms": ax, "note": note[:300]})
                 if not okk:
                     broken.append((t, note[:300]))
+        if self.tier == "thorough" and getattr(spec, "COQ_PROPS", []) and not broken:
+            # second opinion: the independent checker re-checks the compiled
+            # property files and everything they depend on
+            try:
+                rc, out, err = run(["coqchk", "-o", "-silent", "-Q", "theories", "VV", "-Q", "gen", "VVgen"]
+                                   + ["VV." + pf for pf in spec.COQ_PROPS], cwd=COQ, timeout=3000)
+                m = re.search(r"\* Axioms:(.*?)\n\s*\n\* Constants", out + err, re.S)
+                axs = [a.strip() for a in (m.group(1).split("\n") if m else []) if a.strip() and a.strip() != "<none>"]
+                cov["coqchk"] = {"rc": rc, "axioms_of_loaded_libraries": axs}
+                if rc != 0:
+                    broken.append(("coqchk", (out + err)[-400:]))
+            except Exception as e:  # noqa
+                cov["coqchk"] = {"error": str(e)[-300:]}
         cov["obligations"] = len(obligations)
         cov["discharged"] = sum(1 for o in obligations if o["discharged"])
         cov["theorems"] = obligations
